@@ -1,7 +1,5 @@
 (* C05 for the view ops: the models accept exactly the legal argument combinations of the (PyTorch) spec and
-   produce the spec's shape and index map.  Where the faithful model deviates (0-d tensors, zero-size dims,
-   NumPy's "any negative entry is the unknown dimension", duplicates that squeeze does not notice) the
-   restricted statement is proved and the deviation is exhibited (`..._refuted`).                          *)
+   produce the spec's shape and index map, for all ranks (incl. 0-d), shapes (incl. zero-size dims) and arguments. *)
 From Coq Require Import List Arith ZArith Lia Bool Permutation.
 Import ListNotations.
 From SG Require Import Base.Sums Base.Cmp NumPy.Gather NumPy.Index NumPy.Tensor NumPy.ViewsAux NumPy.Views NumPy.Indexing NumPy.Spec.
@@ -44,65 +42,63 @@ Proof.
     destruct (Z.leb_spec (- Z.of_nat 0) z); simpl in *; try lia; auto.
 Qed.
 
+Lemma norm_axis_axis_dim n z : norm_axis n z = axis_dim n z.
+Proof.
+  destruct (Nat.eq_dec n 0) as [->|Hn].
+  - rewrite norm_axis_0d. unfold axis_dim. simpl.
+    destruct (Z.leb_spec 0 z); destruct (Z.ltb_spec z 0); simpl; auto; lia.
+  - unfold norm_axis, axis_dim.
+    destruct (Z.leb_spec 0 z); destruct (Z.ltb_spec z (Z.of_nat n)); destruct (Z.ltb_spec z 0);
+      destruct (Z.leb_spec (- Z.of_nat n) z); simpl; try lia; auto.
+    + rewrite mod_wrap by lia. destruct (Z.ltb_spec z 0); try lia. reflexivity.
+    + rewrite mod_wrap by lia. destruct (Z.ltb_spec z 0); try lia. reflexivity.
+Qed.
+
+Lemma norm_max_wrap n z : norm_axis (Nat.max n 1) z = wrap_dim n z.
+Proof.
+  rewrite norm_axis_axis_dim. unfold axis_dim, wrap_dim. now rewrite Nat2Z.inj_max.
+Qed.
+
 (* ------------------------------------------------------------------ reshape *)
-Lemma count_negs t : Forall (fun z => (-1 <= z)%Z) t -> negs t = count_occ Z.eq_dec t (-1)%Z.
+Lemma known_known_prod t : Z.of_nat (known t) = known_prod t.
 Proof.
-  unfold negs. induction 1 as [|z t Hz F IH]; simpl; auto.
-  destruct (Z.ltb_spec z 0); destruct (Z.eq_dec z (-1)); simpl; try lia.
+  unfold known, known_prod. induction t as [|z t IH]; simpl; auto.
+  destruct (Z.leb_spec 0 z); simpl; auto. rewrite Nat2Z.inj_mul, Z2Nat.id by lia. now rewrite IH.
 Qed.
 
-Lemma known_known_prod t : Forall (fun z => (-1 <= z)%Z) t -> Z.of_nat (known t) = known_prod t.
+Theorem reshape_accepts_iff_legal sh t : fwd_reshape sh t <> None <-> legal_reshape sh t.
 Proof.
-  unfold known, known_prod. induction 1 as [|z t Hz F IH]; simpl; auto.
-  destruct (Z.leb_spec 0 z); destruct (Z.eqb_spec z (-1)); simpl; try lia.
-Qed.
-
-Theorem reshape_accepts_iff_legal_partial sh t :
-  Forall (fun z => (-1 <= z)%Z) t -> (fwd_reshape sh t <> None <-> legal_reshape sh t).
-Proof.
-  intros F. unfold fwd_reshape, np_reshape, legal_reshape, infer_shape. fold (negs t) (known t).
-  rewrite <- (count_negs t F). pose proof (known_known_prod t F) as K.
+  unfold fwd_reshape, np_reshape, legal_reshape, infer_shape, unknowns. fold (negs t) (known t).
+  pose proof (known_known_prod t) as K.
   destruct (negs t) as [|[|k]]; simpl.
   - destruct (Nat.eqb_spec (known t) (size sh)) as [E|E]; simpl.
-    + split. intros _. split; auto. lia. intros _. discriminate.
-    + split. intros X. contradiction. intros [_ X]. lia.
+    + split. intros _. lia. intros _. discriminate.
+    + split. intros X. contradiction. intros X. lia.
   - destruct (Nat.eqb_spec (known t) 0) as [E0|E0]; simpl.
-    + split. contradiction. intros [_ [X _]]. lia.
+    + split. contradiction. intros [X _]. lia.
     + destruct (Nat.eqb_spec (size sh mod known t) 0) as [E1|E1]; simpl.
-      * split. intros _. split; auto. split. lia. rewrite <- K, <- Nat2Z.inj_mod. lia. intros _. discriminate.
-      * split. contradiction. intros [_ [_ X]]. rewrite <- K, <- Nat2Z.inj_mod in X. lia.
-  - split. contradiction. intros [_ []].
+      * split. intros _. split. lia. rewrite <- K, <- Nat2Z.inj_mod. lia. intros _. discriminate.
+      * split. contradiction. intros [_ X]. rewrite <- K, <- Nat2Z.inj_mod in X. lia.
+  - split. contradiction. intros [].
 Qed.
 
-Theorem reshape_matches_spec_partial sh t op :
-  Forall (fun z => (-1 <= z)%Z) t -> fwd_reshape sh t = Some op -> spec_reshape sh t op.
+Theorem reshape_matches_spec sh t op : fwd_reshape sh t = Some op -> spec_reshape sh t op.
 Proof.
-  intros F E. apply np_reshape_some in E as (out & Ei & -> & Es).
+  intros E. apply np_reshape_some in E as (out & Ei & -> & Es).
   apply infer_shape_spec in Ei as (Eo & _ & _).
   unfold spec_reshape; cbn [g_in g_out reshape_op]. split; auto. split. subst out. now rewrite map_length.
   split; [|split; auto].
-  - intros k Hk Hne. subst out.
+  - intros k Hk Hz. subst out.
     rewrite (nth_indep _ 0 (fillq (size sh / known t) 0%Z)) by (now rewrite map_length).
-    rewrite map_nth. unfold fillq.
-    assert (Hz : (-1 <= nth k t 0)%Z). { rewrite Forall_forall in F. apply F. now apply nth_In. }
-    destruct (Z.ltb_spec (nth k t 0%Z) 0); lia.
+    rewrite map_nth. unfold fillq. destruct (Z.ltb_spec (nth k t 0%Z) 0); lia.
   - apply reshape_op_order_preserving. auto.
-Qed.
-
-(* NumPy treats every negative entry as the unknown dimension: x(2).reshape((-2,)) is accepted *)
-Theorem reshape_accepts_iff_legal_refuted :
-  exists sh t, fwd_reshape sh t <> None /\ ~ legal_reshape sh t.
-Proof.
-  exists [2], [(-2)%Z]. split. vm_compute. discriminate.
-  intros [F _]. inversion F; subst. lia.
 Qed.
 
 (* ------------------------------------------------------------------ flatten *)
 Lemma flatten_target_spec sh s e t :
   flatten_target sh s e = Some t ->
   exists s' e', wrap_dim (length sh) s = Some s' /\ wrap_dim (length sh) e = Some e' /\ s' <= e' /\
-    t = if s' <? e' then map Z.of_nat (firstn s' sh) ++ [(-1)%Z] ++ map Z.of_nat (skipn (e' + 1) sh)
-        else map Z.of_nat sh.
+    t = map Z.of_nat (spec_flatten_shape sh s' e').
 Proof.
   unfold flatten_target, wrap_dim.
   assert (Em : Z.of_nat (if length sh =? 0 then 1 else length sh) = Z.max (Z.of_nat (length sh)) 1).
@@ -114,8 +110,8 @@ Proof.
   destruct (Z.ltb_spec (e mod m) (s mod m)); try discriminate.
   pose proof (Z.mod_pos_bound s m Hm). pose proof (Z.mod_pos_bound e m Hm).
   intros E. exists (Z.to_nat (s mod m)), (Z.to_nat (e mod m)). repeat split; auto. lia.
-  destruct (Z.ltb_spec (s mod m) (e mod m)); destruct (Nat.ltb_spec (Z.to_nat (s mod m)) (Z.to_nat (e mod m))); try lia;
-    inversion E; auto.
+  injection E as <-. unfold spec_flatten_shape.
+  replace (Z.to_nat (e mod m) + 1 - Z.to_nat (s mod m)) with (Z.to_nat (e mod m) - Z.to_nat (s mod m) + 1) by lia. reflexivity.
 Qed.
 
 Lemma flatten_target_legal sh s e s' e' :
@@ -131,30 +127,11 @@ Proof.
     simpl; try lia.
   rewrite <- !mod_wrap by lia.
   pose proof (Z.mod_pos_bound s m Hm). pose proof (Z.mod_pos_bound e m Hm).
-  destruct (Z.ltb_spec (e mod m) (s mod m)); try lia.
-  destruct (Z.ltb_spec (s mod m) (e mod m)); discriminate.
-Qed.
-
-Theorem flatten_accepted_is_legal sh s e : fwd_flatten sh s e <> None -> legal_flatten sh s e.
-Proof.
-  unfold fwd_flatten. destruct (flatten_target sh s e) as [t|] eqn:Et; try contradiction. intros _.
-  apply flatten_target_spec in Et as (s' & e' & Ws & We & Hle & _). exists s', e'. auto.
+  destruct (Z.ltb_spec (e mod m) (s mod m)); try lia. discriminate.
 Qed.
 
 Lemma size_firstn_skipn sh a : size sh = size (firstn a sh) * size (skipn a sh).
 Proof. rewrite <- (firstn_skipn a sh) at 1. apply size_app. Qed.
-
-Lemma wrap_dim_lt n z k : n <> 0 -> wrap_dim n z = Some k -> k < n.
-Proof. intros Hn E. rewrite <- norm_wrap in E by auto. eapply norm_axis_lt; eauto. Qed.
-
-Lemma size_pos_no_zero sh : ~ In 0 sh -> size sh <> 0.
-Proof.
-  induction sh as [|d r IH]; intros H. unfold size; simpl; lia.
-  change (size (d :: r)) with (d * size r). simpl in H. assert (d <> 0) by tauto. assert (size r <> 0) by (apply IH; tauto). nia.
-Qed.
-
-Lemma to_nat_of_nat_map l : map Z.to_nat (map Z.of_nat l) = l.
-Proof. induction l; simpl; auto. now rewrite Nat2Z.id, IHl. Qed.
 
 Lemma skipn_add {X} a : forall b (l : list X), skipn a (skipn b l) = skipn (b + a) l.
 Proof.
@@ -162,134 +139,51 @@ Proof.
   destruct l as [|x l]. now rewrite skipn_nil. apply IH.
 Qed.
 
-Lemma negs_of_nat l : negs (map Z.of_nat l) = 0.
-Proof. unfold negs. induction l as [|d l IH]; simpl; auto. destruct (Z.ltb_spec (Z.of_nat d) 0); try lia; auto. Qed.
-Lemma known_of_nat l : known (map Z.of_nat l) = size l.
+(* merging a run of dims keeps the number of elements (whatever the dims, zero-size included; also for 0-d) *)
+Lemma size_spec_flatten_shape sh s' e' : s' <= e' -> size (spec_flatten_shape sh s' e') = size sh.
 Proof.
-  unfold known. induction l as [|d l IH]; simpl; auto. destruct (Z.leb_spec 0 (Z.of_nat d)); [|lia].
-  simpl. rewrite Nat2Z.id, IH. reflexivity.
-Qed.
-Lemma negs_app a b : negs (a ++ b) = negs a + negs b.
-Proof. unfold negs. now rewrite filter_app, app_length. Qed.
-Lemma known_app a b : known (a ++ b) = known a * known b.
-Proof.
-  unfold known. rewrite filter_app, map_app. induction (map Z.to_nat (filter (fun z => (0 <=? z)%Z) a)) as [|x l IH]; simpl.
-  lia. rewrite IH. lia.
-Qed.
-Lemma fillq_of_nat q l : map (fillq q) (map Z.of_nat l) = l.
-Proof. unfold fillq. induction l as [|d l IH]; simpl; auto. destruct (Z.ltb_spec (Z.of_nat d) 0); [lia|]. now rewrite Nat2Z.id, IH. Qed.
-
-Lemma infer_shape_one_neg total t :
-  negs t = 1 -> known t <> 0 -> total mod known t = 0 ->
-  infer_shape total t = Some (map (fillq (total / known t)) t).
-Proof.
-  intros N K M. unfold infer_shape. fold (negs t) (known t). rewrite N.
-  destruct (Nat.eqb_spec (known t) 0); try lia. rewrite M. reflexivity.
-Qed.
-
-(* the reshape target built by flatten, evaluated *)
-Lemma flatten_infer sh s' e' : s' < e' -> e' < length sh ->
-  size (firstn s' sh) * size (skipn (e' + 1) sh) <> 0 ->
-  infer_shape (size sh) (map Z.of_nat (firstn s' sh) ++ [(-1)%Z] ++ map Z.of_nat (skipn (e' + 1) sh))
-  = Some (spec_flatten_shape sh s' e').
-Proof.
-  intros Hlt He Hnz. unfold spec_flatten_shape.
-  set (pre := firstn s' sh) in *. set (post := skipn (e' + 1) sh) in *.
-  set (mid := firstn (e' - s' + 1) (skipn s' sh)).
-  assert (Esz : size sh = size pre * size mid * size post).
-  { rewrite (size_firstn_skipn sh s'). fold pre. rewrite (size_firstn_skipn (skipn s' sh) (e' - s' + 1)). fold mid.
-    rewrite skipn_add. replace (s' + (e' - s' + 1)) with (e' + 1) by lia. fold post. lia. }
-  set (t := map Z.of_nat pre ++ [(-1)%Z] ++ map Z.of_nat post).
-  assert (N : negs t = 1). { unfold t. rewrite !negs_app, !negs_of_nat. reflexivity. }
-  assert (K : known t = size pre * size post).
-  { unfold t. rewrite !known_app, !known_of_nat. unfold known at 1. simpl. lia. }
-  rewrite infer_shape_one_neg; auto; rewrite K; auto.
-  - f_equal. unfold t. rewrite !map_app, !fillq_of_nat. simpl. unfold fillq at 1. simpl.
-    repeat f_equal. rewrite Esz. replace (size pre * size mid * size post) with (size mid * (size pre * size post)) by lia.
-    now rewrite Nat.div_mul.
-  - rewrite Esz. replace (size pre * size mid * size post) with (size mid * (size pre * size post)) by lia.
-    now apply Nat.mod_mul.
-Qed.
-
-Lemma size_sub_nonzero sh a : ~ In 0 sh -> size (firstn a sh) <> 0 /\ size (skipn a sh) <> 0.
-Proof.
-  intros H. split; apply size_pos_no_zero; intro Hc; apply H; rewrite <- (firstn_skipn a sh); apply in_or_app; auto.
+  intros Hle. unfold spec_flatten_shape. rewrite !size_app.
+  rewrite (size_firstn_skipn sh s'). rewrite (size_firstn_skipn (skipn s' sh) (e' - s' + 1)).
+  rewrite skipn_add. replace (s' + (e' - s' + 1)) with (e' + 1) by lia.
+  change (size [size (firstn (e' - s' + 1) (skipn s' sh))]) with (size (firstn (e' - s' + 1) (skipn s' sh)) * 1). lia.
 Qed.
 
 Lemma wrap_dim_0d z k : wrap_dim 0 z = Some k -> k = 0.
 Proof. intros E. apply wrap_dim_some in E as [_ ->]. cbn. now rewrite Z.mod_1_r. Qed.
 
-Lemma wrap_dim_lt' (sh : shape) z k : wrap_dim (length sh) z = Some k -> sh <> [] -> k < length sh.
-Proof. intros E Hne. apply (wrap_dim_lt _ z); auto. destruct sh; simpl; auto; congruence. Qed.
-
-Theorem flatten_accepts_iff_legal_partial sh s e :
-  ~ In 0 sh -> (fwd_flatten sh s e <> None <-> legal_flatten sh s e).
+Theorem flatten_accepts_iff_legal sh s e : fwd_flatten sh s e <> None <-> legal_flatten sh s e.
 Proof.
-  intros Hz. split. apply flatten_accepted_is_legal.
-  intros (s' & e' & Ws & We & Hle). unfold fwd_flatten.
-  destruct (flatten_target sh s e) as [t|] eqn:Et.
-  2:{ exfalso. apply (flatten_target_legal sh s e s' e' Ws We Hle Et). }
-  apply flatten_target_spec in Et as (s1 & e1 & Ws1 & We1 & Hle1 & ->).
-  rewrite Ws in Ws1. rewrite We in We1. inversion Ws1; inversion We1; subst s1 e1.
-  unfold np_reshape. destruct (Nat.ltb_spec s' e').
-  - assert (Hne : sh <> []). { intro; subst sh. apply wrap_dim_0d in Ws. apply wrap_dim_0d in We. lia. }
-    pose proof (wrap_dim_lt' sh e e' We Hne).
-    rewrite flatten_infer; auto. discriminate.
-    destruct (size_sub_nonzero sh s' Hz). destruct (size_sub_nonzero sh (e' + 1) Hz). nia.
-  - rewrite infer_shape_of_nat by auto. discriminate.
+  unfold fwd_flatten, legal_flatten. split.
+  - destruct (flatten_target sh s e) as [t|] eqn:Et; try contradiction. intros _.
+    apply flatten_target_spec in Et as (s' & e' & Ws & We & Hle & _). exists s', e'. auto.
+  - intros (s' & e' & Ws & We & Hle).
+    destruct (flatten_target sh s e) as [t|] eqn:Et.
+    2:{ exfalso. apply (flatten_target_legal sh s e s' e' Ws We Hle Et). }
+    apply flatten_target_spec in Et as (s1 & e1 & Ws1 & We1 & Hle1 & ->).
+    unfold np_reshape. rewrite infer_shape_of_nat by (now apply size_spec_flatten_shape). discriminate.
 Qed.
 
-Theorem flatten_matches_spec_partial sh s e op :
-  sh <> [] -> fwd_flatten sh s e = Some op -> spec_flatten sh s e op.
+Theorem flatten_matches_spec sh s e op : fwd_flatten sh s e = Some op -> spec_flatten sh s e op.
 Proof.
-  intros Hne. unfold fwd_flatten. destruct (flatten_target sh s e) as [t|] eqn:Et; try discriminate.
+  unfold fwd_flatten. destruct (flatten_target sh s e) as [t|] eqn:Et; try discriminate.
   apply flatten_target_spec in Et as (s' & e' & Ws & We & Hle & ->). intros E.
-  apply np_reshape_some in E as (out & Ei & -> & Es).
-  pose proof (wrap_dim_lt' sh s s' Ws Hne) as Hs. pose proof (wrap_dim_lt' sh e e' We Hne) as He.
-  exists s', e'. cbn [g_in g_out reshape_op]. split; auto. split; auto. split; auto. split.
-  2: now apply reshape_op_order_preserving.
-  destruct (Nat.ltb_spec s' e').
-  - pose proof Ei as Ei'. apply infer_shape_spec in Ei' as (_ & _ & [N0|(N1 & K & _)]).
-    + rewrite !negs_app, !negs_of_nat in N0. unfold negs in N0. simpl in N0. lia.
-    + rewrite !known_app, !known_of_nat in K. change (known [(-1)%Z]) with 1 in K.
-      rewrite flatten_infer in Ei; auto. now inversion Ei. lia.
-  - assert (s' = e') by lia. subst e'. rewrite infer_shape_of_nat in Ei by auto. inversion Ei; subst out.
-    unfold spec_flatten_shape. destruct (split_at sh s' 0 Hs) as [Esh Lp].
-    replace (s' - s' + 1) with 1 by lia. replace (s' + 1) with (S s') by lia.
-    assert (Sk : skipn s' sh = nth s' sh 0 :: skipn (S s') sh).
-    { rewrite Esh at 1. rewrite <- Lp at 1. apply skipn_mid0. }
-    rewrite Sk. cbn [firstn]. unfold size at 1. simpl. rewrite Nat.mul_1_r. exact Esh.
+  unfold np_reshape in E. rewrite infer_shape_of_nat in E by (now apply size_spec_flatten_shape).
+  injection E as <-. exists s', e'. cbn [g_in g_out reshape_op]. repeat split; auto.
+  apply reshape_op_order_preserving. symmetry. now apply size_spec_flatten_shape.
 Qed.
-
-(* flatten of a 0-d tensor keeps shape () where torch.flatten (and ndarray.flatten) give shape (1,) *)
-Theorem flatten_0d_refuted :
-  exists op, fwd_flatten [] 0 (-1) = Some op /\ legal_flatten [] 0 (-1) /\ ~ spec_flatten [] 0 (-1) op.
-Proof.
-  eexists. split. vm_compute. reflexivity. split.
-  - exists 0, 0. repeat split; auto.
-  - intros (s' & e' & Ws & We & _ & Eo & _). apply wrap_dim_0d in Ws. apply wrap_dim_0d in We. subst.
-    cbn in Eo. discriminate.
-Qed.
-
-(* a zero-size dim outside the flattened range makes the inferred -1 ambiguous for NumPy: rejected though legal *)
-Theorem flatten_zero_size_refuted :
-  legal_flatten [0;3;2] 1 2 /\ fwd_flatten [0;3;2] 1 2 = None.
-Proof. split. exists 1, 2. repeat split; auto. vm_compute. reflexivity. Qed.
 
 (* ------------------------------------------------------------------ movedim / transpose *)
-Theorem movedim_accepts_iff_legal_partial sh s d :
-  sh <> [] -> (fwd_movedim sh s d <> None <-> legal_movedim sh s d).
+Theorem movedim_accepts_iff_legal sh s d : fwd_movedim sh s d <> None <-> legal_movedim sh s d.
 Proof.
-  intros Hne. assert (Hn : length sh <> 0) by (destruct sh; simpl; congruence).
-  unfold fwd_movedim, np_moveaxis, legal_movedim. rewrite !norm_wrap by auto.
-  destruct (wrap_dim (length sh) s); destruct (wrap_dim (length sh) d); split; try discriminate; try tauto.
+  unfold fwd_movedim, np_moveaxis, legal_movedim. rewrite !norm_axis_axis_dim.
+  destruct (axis_dim (length sh) s); destruct (axis_dim (length sh) d); split; try discriminate; try tauto.
   all: intros _; split; discriminate.
 Qed.
 
 Theorem movedim_matches_spec sh s d op : fwd_movedim sh s d = Some op -> spec_movedim sh s d op.
 Proof.
   unfold fwd_movedim. intros F. apply np_moveaxis_some in F as (s' & d' & Es & Ed & Hs & Hd & ->).
-  assert (Hn : length sh <> 0) by lia. rewrite norm_wrap in Es, Ed by auto.
+  rewrite norm_axis_axis_dim in Es, Ed.
   exists s', d', (mv s' d'). split; auto. split; auto. split; auto. split.
   - apply (perm_op_permutes (length sh) (mv s' d') (mv d' s')); auto; intros; try apply mv_lt; try apply (mv_mv (length sh)); auto.
   - unfold mv. split; [|split].
@@ -298,15 +192,10 @@ Proof.
     + intros k k' H1 H2 H3 H4. casesb; lia.
 Qed.
 
-Theorem movedim_0d_refuted : legal_movedim [] 0 0 /\ fwd_movedim [] 0 0 = None.
-Proof. split. split; discriminate. reflexivity. Qed.
-
-Theorem transpose_accepts_iff_legal_partial sh a b :
-  sh <> [] -> (fwd_transpose sh a b <> None <-> legal_transpose sh a b).
+Theorem transpose_accepts_iff_legal sh a b : fwd_transpose sh a b <> None <-> legal_transpose sh a b.
 Proof.
-  intros Hne. assert (Hn : length sh <> 0) by (destruct sh; simpl; congruence).
-  unfold fwd_transpose, np_swapaxes, legal_transpose. rewrite !norm_wrap by auto.
-  destruct (wrap_dim (length sh) a); destruct (wrap_dim (length sh) b); split; try discriminate; try tauto.
+  unfold fwd_transpose, np_swapaxes, legal_transpose. rewrite !norm_axis_axis_dim.
+  destruct (axis_dim (length sh) a); destruct (axis_dim (length sh) b); split; try discriminate; try tauto.
   all: intros _; split; discriminate.
 Qed.
 
@@ -321,15 +210,12 @@ Qed.
 Theorem transpose_matches_spec sh a b op : fwd_transpose sh a b = Some op -> spec_transpose sh a b op.
 Proof.
   unfold fwd_transpose. intros F. apply np_swapaxes_some in F as (a' & b' & Ea & Eb & Ha & Hb & ->).
-  assert (Hn : length sh <> 0) by lia. rewrite norm_wrap in Ea, Eb by auto.
+  rewrite norm_axis_axis_dim in Ea, Eb.
   exists a', b'. split; auto. split; auto. split; auto.
   apply (permutes_ext _ (sw a' b')).
   - intros k. unfold sw. destruct (Nat.eqb_spec k b'), (Nat.eqb_spec k a'); subst; auto.
   - apply (perm_op_permutes (length sh) (sw a' b') (sw a' b')); auto; intros; try apply sw_lt; try apply sw_sw; auto.
 Qed.
-
-Theorem transpose_0d_refuted : legal_transpose [] 0 0 /\ fwd_transpose [] 0 0 = None.
-Proof. split. split; discriminate. reflexivity. Qed.
 
 (* ------------------------------------------------------------------ unfold *)
 Lemma unfold_args_accepts sh dimension size step :
@@ -350,15 +236,12 @@ Proof.
       destruct (Z.ltb_spec (Z.of_nat (nth (Z.to_nat (dimension + n)) sh 0%nat)) size); try lia. destruct (Z.ltb_spec dimension (- n)); try lia. discriminate.
 Qed.
 
-Theorem unfold_accepts_iff_legal_partial sh dimension size step :
-  sh <> [] -> (fwd_unfold_dim sh dimension size step <> None <-> legal_unfold sh dimension size step).
+Theorem unfold_accepts_iff_legal sh dimension size step :
+  fwd_unfold_dim sh dimension size step <> None <-> legal_unfold sh dimension size step.
 Proof.
-  intros Hne. assert (Hn : length sh <> 0) by (destruct sh; simpl; congruence).
   transitivity (unfold_args sh dimension size step <> None).
   { unfold fwd_unfold_dim. destruct (unfold_args sh dimension size step) as [[[d sz] st]|]; split; auto; discriminate. }
-  rewrite unfold_args_accepts. unfold legal_unfold. rewrite <- (norm_wrap (length sh) dimension Hn).
-  split; intros (d & N & H1 & H2 & H3); exists d; repeat split; auto;
-    pose proof (norm_axis_lt _ _ _ N); rewrite (nth_indep sh 0 1) in * by auto; auto.
+  rewrite unfold_args_accepts. unfold legal_unfold. now rewrite <- norm_axis_axis_dim.
 Qed.
 
 Theorem unfold_matches_spec sh dimension size step op :
@@ -366,12 +249,9 @@ Theorem unfold_matches_spec sh dimension size step op :
 Proof.
   intros F. destruct (fwd_unfold_closed _ _ _ _ _ F) as (d & sz & st & pre & L & post & Ua & Esh & Lp & Hsz & Hst & Hle & Ei & Eo & Phi).
   apply unfold_args_some in Ua as (N & Hd & _ & _ & _ & E1 & E2).
-  assert (Hn : length sh <> 0) by lia. rewrite norm_wrap in N by auto.
+  rewrite norm_axis_axis_dim in N.
   exists d, pre, L, post. subst size step. rewrite !Nat2Z.id. repeat split; auto.
 Qed.
-
-Theorem unfold_0d_refuted : legal_unfold [] 0 1 1 /\ fwd_unfold_dim [] 0 1 1 = None.
-Proof. split. exists 0. repeat split; simpl; lia. reflexivity. Qed.
 
 (* ------------------------------------------------------------------ masks vs. selected positions *)
 Definition sel_from {X} (a : nat) (keep : nat -> bool) (l : list X) : list X :=
@@ -434,23 +314,6 @@ Proof.
     + intros (z' & [<-|Hz] & Ez'). left. congruence. right. eauto.
 Qed.
 
-Lemma norm_axes_filter n (P : Z -> bool) l ks : norm_axes n l = Some ks -> exists ks', norm_axes n (filter P l) = Some ks'.
-Proof.
-  revert ks. induction l as [|z l IH]; intros ks E; simpl in *. eauto.
-  destruct (norm_axis n z) as [k0|] eqn:Ez; try discriminate.
-  destruct (norm_axes n l) as [r|] eqn:El; try discriminate.
-  destruct (IH r eq_refl) as (ks' & E'). destruct (P z); simpl; eauto. rewrite Ez, E'. eauto.
-Qed.
-
-Lemma sq_selected_tuple n l k : n <> 0 ->
-  sq_selected n (SqTuple l) k = true <-> exists z, In z l /\ norm_axis n z = Some k.
-Proof.
-  intros Hn. unfold sq_selected. cbn [sq_dims]. rewrite existsb_exists. split.
-  - intros (z & Hz & E). exists z. split; auto. rewrite norm_wrap by auto.
-    destruct (wrap_dim n z) as [k'|]; try discriminate. apply Nat.eqb_eq in E. now subst.
-  - intros (z & Hz & E). exists z. split; auto. rewrite norm_wrap in E by auto. rewrite E. apply Nat.eqb_refl.
-Qed.
-
 Lemma bool_eq_iff (a b : bool) : (a = true <-> b = true) -> a = b.
 Proof. destruct a, b; intuition congruence. Qed.
 
@@ -465,67 +328,10 @@ Proof.
   apply select_positions_ext. intros k Hk. now rewrite mask_of_nth.
 Qed.
 
-Theorem squeeze_matches_spec sh arg op : fwd_squeeze sh arg = Some op -> spec_squeeze sh arg op.
-Proof.
-  intros F. destruct (fwd_squeeze_order_preserving _ _ _ F) as (Ei & OP & _).
-  unfold spec_squeeze. split; auto. split; auto. unfold spec_squeeze_shape.
-  unfold fwd_squeeze in F. destruct arg as [|z|l].
-  - (* None *)
-    destruct (Nat.eqb_spec (length sh) 0) as [E0|E0].
-    + injection F as <-. destruct sh; try discriminate. reflexivity.
-    + unfold np_squeeze in F. injection F as <-. cbn [g_out].
-      rewrite drop_mask_select by (now rewrite map_length). apply select_positions_ext.
-      intros k Hk. unfold sq_selected. cbn [sq_dims]. cbn [andb]. f_equal.
-      change false with ((fun d => d =? 1) 0). now rewrite map_nth.
-  - (* int *)
-    destruct (Nat.eqb_spec (length sh) 0) as [E0|E0].
-    + injection F as <-. destruct sh; try discriminate. reflexivity.
-    + destruct (norm_axis (length sh) z) as [k0|] eqn:Ez; try discriminate.
-      assert (Sel : forall k, sq_selected (length sh) (SqInt z) k = (k0 =? k)).
-      { intros k. unfold sq_selected. cbn [sq_dims existsb]. rewrite <- norm_wrap by auto. rewrite Ez. now rewrite orb_false_r. }
-      destruct (Nat.eqb_spec (nth k0 sh 0) 1) as [E1|E1].
-      * rewrite (np_squeeze_some_shape sh [z] op [k0] F) by (simpl; now rewrite Ez).
-        apply select_positions_ext. intros k Hk. f_equal. rewrite Sel. unfold memb. cbn [existsb]. rewrite orb_false_r.
-        destruct (Nat.eqb_spec k k0) as [->|Hne]. rewrite Nat.eqb_refl. simpl. symmetry. now apply Nat.eqb_eq.
-        destruct (Nat.eqb_spec k0 k); try congruence. reflexivity.
-      * injection F as <-. cbn [g_out id_op]. symmetry. apply select_positions_all.
-        intros k Hk. rewrite Sel. destruct (Nat.eqb_spec k0 k) as [<-|]; auto. simpl.
-        destruct (Nat.eqb_spec (nth k0 sh 0) 1); auto; contradiction.
-  - (* tuple *)
-    destruct (norm_axes (length sh) l) as [ks|] eqn:En; try discriminate.
-    destruct (Nat.eqb_spec (length sh) 0) as [E0|E0].
-    + destruct sh; try discriminate. destruct l as [|z l]. injection F as <-. reflexivity.
-      simpl in En. rewrite norm_axis_0d in En. discriminate.
-    + set (P := fun z => match norm_axis (length sh) z with Some k => nth k sh 0 =? 1 | None => false end) in *.
-      assert (Key : forall k, k < length sh ->
-                (exists z, In z (filter P l) /\ norm_axis (length sh) z = Some k) <->
-                sq_selected (length sh) (SqTuple l) k && (nth k sh 0 =? 1) = true).
-      { intros k Hk. rewrite andb_true_iff, sq_selected_tuple by auto. split.
-        - intros (z & Hz & Ez). apply filter_In in Hz as [Hz Pz]. unfold P in Pz. rewrite Ez in Pz. split; eauto.
-        - intros [(z & Hz & Ez) E1]. exists z. split; auto. apply filter_In. split; auto. unfold P. now rewrite Ez. }
-      destruct (filter P l) as [|z0 l0] eqn:Fl.
-      * injection F as <-. cbn [g_out id_op]. symmetry. apply select_positions_all. intros k Hk.
-        destruct (sq_selected (length sh) (SqTuple l) k && (nth k sh 0 =? 1)) eqn:X; auto.
-        apply Key in X; auto. destruct X as (z & [] & _).
-      * rewrite <- Fl in *. destruct (norm_axes_filter (length sh) P l ks En) as (ks' & En').
-        rewrite (np_squeeze_some_shape sh (filter P l) op ks' F En').
-        apply select_positions_ext. intros k Hk. f_equal. apply bool_eq_iff.
-        rewrite memb_In, (norm_axes_map _ _ _ En'). now apply Key.
-Qed.
-
-(* acceptance of squeeze *)
 Lemma norm_axes_all_some n l : (forall z, In z l -> norm_axis n z <> None) -> exists ks, norm_axes n l = Some ks.
 Proof.
   intros H. destruct (norm_axes n l) as [ks|] eqn:E. eauto.
   apply norm_axes_none in E as (z & Hz & Ez). exfalso. now apply (H z).
-Qed.
-
-Lemma NoDup_map_filter {X Y} (f : X -> Y) (P : X -> bool) l : NoDup (map f l) -> NoDup (map f (filter P l)).
-Proof.
-  induction l as [|a l IH]; simpl; intros ND; auto. inversion ND; subst.
-  destruct (P a); simpl; auto. constructor; auto.
-  intro Hc. apply H1. apply in_map_iff in Hc as (x & E & Hx). apply filter_In in Hx as [Hx _].
-  apply in_map_iff. eauto.
 Qed.
 
 Lemma norm_axes_map_some n : forall l ks, norm_axes n l = Some ks -> map (norm_axis n) l = map Some ks.
@@ -536,62 +342,99 @@ Proof.
     destruct (norm_axes n l) as [r|] eqn:El; try discriminate. inversion E; subst. simpl. rewrite Ez. f_equal. auto.
 Qed.
 
-Theorem squeeze_legal_accepted_partial sh arg :
-  sh <> [] -> legal_squeeze sh arg -> fwd_squeeze sh arg <> None.
+Lemma norm_axis_of_nat n k : k < n -> norm_axis n (Z.of_nat k) = Some k.
 Proof.
-  intros Hne L. assert (Hn : length sh <> 0) by (destruct sh; simpl; congruence).
-  unfold fwd_squeeze, legal_squeeze in *. destruct arg as [|z|l]; cbn [sq_dims] in L.
-  - destruct (Nat.eqb_spec (length sh) 0); try lia. unfold np_squeeze. discriminate.
-  - destruct (Nat.eqb_spec (length sh) 0); try lia. destruct L as [R _].
-    specialize (R z (or_introl eq_refl)). rewrite <- norm_wrap in R by auto.
-    destruct (norm_axis (length sh) z) as [k|] eqn:Ez; try contradiction.
-    destruct (Nat.eqb_spec (nth k sh 0) 1) as [E1|E1]; try discriminate.
-    unfold np_squeeze. cbn [norm_axes]. rewrite Ez. cbn [nodupb memb existsb negb andb forallb]. rewrite E1. discriminate.
-  - destruct L as [R ND].
-    destruct (norm_axes_all_some (length sh) l) as (ks & En).
-    { intros z Hz. rewrite norm_wrap by auto. now apply R. }
-    rewrite En. set (P := fun z => match norm_axis (length sh) z with Some k => nth k sh 0 =? 1 | None => false end).
-    destruct (filter P l) as [|z0 l0] eqn:Fl; try discriminate. rewrite <- Fl.
-    destruct (norm_axes_filter (length sh) P l ks En) as (ks' & En').
-    unfold np_squeeze. rewrite En'.
-    assert (Nd : nodupb ks' = true).
-    { apply nodupb_NoDup. apply (NoDup_map_inv Some). rewrite <- (norm_axes_map_some _ _ _ En').
-      apply NoDup_map_filter. erewrite map_ext. exact ND. intros z. now apply norm_wrap. }
-    assert (Fa : forallb (fun k => nth k sh 0 =? 1) ks' = true).
-    { apply forallb_forall. intros k Hk. apply (norm_axes_map _ _ _ En') in Hk as (z & Hz & Ez).
-      apply filter_In in Hz as [_ Pz]. unfold P in Pz. now rewrite Ez in Pz. }
-    rewrite Nd, Fa. discriminate.
+  intros Hk. unfold norm_axis.
+  assert (E : (0 <=? Z.of_nat k)%Z && (Z.of_nat k <? Z.of_nat n)%Z = true)
+    by (apply andb_true_iff; split; [apply Z.leb_le|apply Z.ltb_lt]; lia).
+  rewrite E. now rewrite Nat2Z.id.
 Qed.
 
-Theorem squeeze_accepted_in_range_partial sh arg :
-  sh <> [] -> fwd_squeeze sh arg <> None ->
-  match sq_dims arg with None => True | Some l => forall z, In z l -> wrap_dim (length sh) z <> None end.
+Lemma norm_axes_of_nat n ks : (forall k, In k ks -> k < n) -> norm_axes n (map Z.of_nat ks) = Some ks.
 Proof.
-  intros Hne A. assert (Hn : length sh <> 0) by (destruct sh; simpl; congruence).
-  unfold fwd_squeeze in A. destruct arg as [|z|l]; cbn [sq_dims]; auto.
-  - destruct (Nat.eqb_spec (length sh) 0); try lia. intros z' [<-|[]]. rewrite <- norm_wrap by auto.
-    destruct (norm_axis (length sh) z); congruence.
-  - destruct (norm_axes (length sh) l) as [ks|] eqn:En; try contradiction.
-    intros z Hz. rewrite <- norm_wrap by auto. apply (norm_axes_spec _ _ _ En). auto.
+  induction ks as [|k ks IH]; intros H; simpl; auto.
+  rewrite norm_axis_of_nat by (apply H; now left). rewrite IH; auto. intros k' Hk'. apply H. now right.
 Qed.
 
-(* duplicates are only noticed when the named axis has size 1: squeeze((0,0)) of a (2,) tensor is accepted *)
-Theorem squeeze_dup_refuted :
-  fwd_squeeze [2] (SqTuple [0;0]%Z) <> None /\ ~ legal_squeeze [2] (SqTuple [0;0]%Z).
+Lemma sq_axes_dims arg : sq_axes arg = sq_dims arg.
+Proof. destruct arg; reflexivity. Qed.
+
+(* the dims named by the argument are the normalised ones *)
+Lemma sq_selected_iff n arg l ks k :
+  sq_dims arg = Some l -> norm_axes (Nat.max n 1) l = Some ks -> (sq_selected n arg k = true <-> In k ks).
 Proof.
-  split. vm_compute. discriminate. intros [_ ND]. cbn in ND. inversion ND; subst. apply H1. now left.
+  intros Ed En. unfold sq_selected. rewrite Ed. rewrite (norm_axes_map _ _ _ En), existsb_exists. split.
+  - intros (z & Hz & E). exists z. split; auto. rewrite norm_max_wrap.
+    destruct (wrap_dim n z) as [k'|]; try discriminate. apply Nat.eqb_eq in E. now subst.
+  - intros (z & Hz & E). exists z. split; auto. rewrite norm_max_wrap in E. rewrite E. apply Nat.eqb_refl.
 Qed.
 
-(* 0-d tensors: an int dim is never validated, a tuple dim is always rejected *)
-Theorem squeeze_0d_refuted :
-  (fwd_squeeze [] (SqInt 5) <> None /\ ~ legal_squeeze [] (SqInt 5)) /\
-  (legal_squeeze [] (SqTuple [0%Z]) /\ fwd_squeeze [] (SqTuple [0%Z]) = None).
+Lemma NoDup_filter_sub {X} (P : X -> bool) l : NoDup l -> NoDup (filter P l).
+Proof. apply NoDup_filter. Qed.
+
+(* squeezing the selected size-1 axes is always possible once the dims are validated *)
+Lemma np_squeeze_filtered sh ks :
+  NoDup ks ->
+  let ks' := filter (fun k => (0 <? length sh) && (nth k sh 0 =? 1)) ks in
+  (forall k, In k ks -> k < Nat.max (length sh) 1) ->
+  norm_axes (length sh) (map Z.of_nat ks') = Some ks' /\ np_squeeze sh (Some (map Z.of_nat ks')) <> None.
 Proof.
-  split; split.
-  - vm_compute. discriminate.
-  - intros [R _]. apply (R 5%Z). now left. reflexivity.
-  - split. intros z [<-|[]]. discriminate. cbn. repeat constructor. intros [].
-  - reflexivity.
+  intros ND ks' B.
+  assert (B' : forall k, In k ks' -> k < length sh /\ nth k sh 0 = 1).
+  { intros k Hk. apply filter_In in Hk as [Hk P]. apply andb_true_iff in P as [P1 P2].
+    apply Nat.ltb_lt in P1. apply Nat.eqb_eq in P2. specialize (B k Hk). split; auto. lia. }
+  assert (N : norm_axes (length sh) (map Z.of_nat ks') = Some ks') by (apply norm_axes_of_nat; intros k Hk; now apply B').
+  split; auto. unfold np_squeeze. rewrite N.
+  assert (Nd : nodupb ks' = true) by (apply nodupb_NoDup; now apply NoDup_filter).
+  assert (Fa : forallb (fun k => nth k sh 0 =? 1) ks' = true).
+  { apply forallb_forall. intros k Hk. apply Nat.eqb_eq. now apply B'. }
+  rewrite Nd, Fa. discriminate.
+Qed.
+
+Theorem squeeze_accepts_iff_legal sh arg : fwd_squeeze sh arg <> None <-> legal_squeeze sh arg.
+Proof.
+  unfold fwd_squeeze, legal_squeeze. rewrite sq_axes_dims. destruct (sq_dims arg) as [l|].
+  2:{ split; auto. intros _. unfold np_squeeze. discriminate. }
+  set (m := Nat.max (length sh) 1).
+  assert (Ew : map (wrap_dim (length sh)) l = map (norm_axis m) l).
+  { apply map_ext. intros z. symmetry. apply norm_max_wrap. }
+  split.
+  - destruct (norm_axes m l) as [ks|] eqn:En; try contradiction.
+    destruct (nodupb ks) eqn:Nd; cbn [negb]; try contradiction. intros _. split.
+    + intros z Hz. rewrite <- norm_max_wrap. fold m. now apply (norm_axes_spec _ _ _ En).
+    + rewrite Ew, (norm_axes_map_some _ _ _ En). apply NoDup_map_inj. intros a b E; now inversion E. now apply nodupb_NoDup.
+  - intros [R ND]. destruct (norm_axes_all_some m l) as (ks & En).
+    { intros z Hz. unfold m. rewrite norm_max_wrap. now apply R. }
+    rewrite En. rewrite Ew, (norm_axes_map_some _ _ _ En) in ND. apply NoDup_map_inv in ND.
+    assert (Nd : nodupb ks = true) by now apply nodupb_NoDup. rewrite Nd. cbn [negb].
+    destruct (np_squeeze_filtered sh ks ND) as [_ A]. { apply (norm_axes_spec _ _ _ En). }
+    destruct (filter _ ks); auto. discriminate.
+Qed.
+
+Theorem squeeze_matches_spec sh arg op : fwd_squeeze sh arg = Some op -> spec_squeeze sh arg op.
+Proof.
+  intros F. destruct (fwd_squeeze_order_preserving _ _ _ F) as (Ei & OP & _).
+  unfold spec_squeeze. split; auto. split; auto. unfold spec_squeeze_shape.
+  unfold fwd_squeeze in F. rewrite sq_axes_dims in F. destruct (sq_dims arg) as [l|] eqn:Ed.
+  - set (m := Nat.max (length sh) 1) in *.
+    destruct (norm_axes m l) as [ks|] eqn:En; try discriminate.
+    destruct (nodupb ks) eqn:Nd; cbn [negb] in F; try discriminate. apply nodupb_NoDup in Nd.
+    destruct (np_squeeze_filtered sh ks Nd) as [N _]. { apply (norm_axes_spec _ _ _ En). }
+    set (ks' := filter (fun k => (0 <? length sh) && (nth k sh 0 =? 1)) ks) in *.
+    assert (Key : forall k, k < length sh ->
+              (In k ks' <-> sq_selected (length sh) arg k && (nth k sh 0 =? 1) = true)).
+    { intros k Hk. unfold ks'. rewrite filter_In, andb_true_iff, andb_true_iff, (sq_selected_iff _ _ _ _ k Ed En).
+      assert (P : (0 <? length sh) = true) by (apply Nat.ltb_lt; lia). rewrite P. tauto. }
+    destruct ks' as [|k0 r] eqn:Ek.
+    + injection F as <-. cbn [g_out id_op]. symmetry. apply select_positions_all. intros k Hk.
+      destruct (sq_selected (length sh) arg k && (nth k sh 0 =? 1)) eqn:X; auto.
+      apply Key in X; [destruct X|auto].
+    + rewrite <- Ek in *. rewrite (np_squeeze_some_shape sh _ op ks' F N).
+      apply select_positions_ext. intros k Hk. f_equal. apply bool_eq_iff. rewrite memb_In. now apply Key.
+  - unfold np_squeeze in F. injection F as <-. cbn [g_out].
+    rewrite drop_mask_select by (now rewrite map_length). apply select_positions_ext.
+    intros k Hk. unfold sq_selected. rewrite Ed. cbn [andb]. f_equal.
+    change false with ((fun d => d =? 1) 0). now rewrite map_nth.
 Qed.
 
 (* ------------------------------------------------------------------ unsqueeze *)
